@@ -7,6 +7,12 @@ R3  nothing but the multipart parse error (a 400) escapes the iterators and
     the BodyPart accessors; DelimiterError is mapped at every stream call.
 R4  delimiter evolution: `--boundary` for the prologue, CRLF + `--boundary`
     from then on, and the same value is given to `delimit`.
+R5-R7, R9 shared reader rules of C14 (delimiter never split / searched behind
+    the cursor; R9 = C14 R11: minimum length of normalised ASGI chunks).
+R8  parse_header splits on ';' only without quoted strings.
+R10 BodyPart.name / .filename hand out exactly the parsed Content-Disposition
+    parameter (effective members of both flavours; the RFC 5987 `filename*`
+    decoding is the one tabled exception).
 """
 
 from __future__ import annotations
@@ -1082,10 +1088,9 @@ class _ExactParam:
                         self.records.append((False, 'the cached Content-Disposition is exactly what parse_header returned for the header '
                                              '(nothing rewrites the parameters in between)', m, v,
                                              'Content-Disposition: form-data; name="discount%22" comes back with an altered name / filename'))
-                        ok = False
         if n == 0:
             ok = False
-        memo[key] = ok
+        memo[key] = ok              # recognised; a departure from the clause is in self.records
         return ok
 
     def _safe_cd_call(self, call, f) -> bool:
@@ -1126,12 +1131,11 @@ class _ExactParam:
                 else:
                     self.records.append((True, 'the part\'s Content-Disposition parameters are exactly what parse_header returns for the decoded header value',
                                          h, t, 'Content-Disposition: form-data; name="discount%22" comes back with an altered name / filename'))
-        if ok:
-            self.run.use(h)
-            if h.qual not in self.parsers:
-                self.parsers.append(h.qual)
-        memo[h.qual] = ok
-        return ok
+        self.run.use(h)
+        if h.qual not in self.parsers:
+            self.parsers.append(h.qual)
+        memo[h.qual] = True         # recognised; a departure from the clause is in self.records
+        return True
 
     def parse_header_call(self, call: ast.Call, h: Func, hdefs) -> bool:
         """parse_header(<X>.decode([utf-8[, errors]])) with X the part's Content-Disposition header bytes."""
@@ -1202,6 +1206,26 @@ class _ExactParam:
     def is_raw(self, e) -> bool:
         r = self.param_read(e, self.f, self.defs)
         return r is not None and r[0] == self.key and (r[1] is None or (isinstance(r[1], ast.Constant) and r[1].value is None))
+
+    def inherited(self, e) -> Optional[Func]:
+        """`super().<this accessor>`: the accessor of the next class in the MRO (analysed in its own right)."""
+        e = strip_await(e)
+        if isinstance(e, ast.Attribute) and e.attr == self.f.name and isinstance(e.value, ast.Call) and isinstance(e.value.func, ast.Name) \
+                and e.value.func.id == 'super' and not e.value.args and self.f.cls is not None:
+            return self.p.lookup_method(self.cls.qual, self.f.name, after=self.f.cls.qual)
+        return None
+
+    def mentions_param(self, e, seen=()) -> bool:
+        """Does `e` contain (directly or through locals) a read of a Content-Disposition parameter / the inherited accessor?"""
+        for x in ast.walk(e):
+            if self.param_read(x, self.f, self.defs) is not None or self.inherited(x) is not None:
+                return True
+            if isinstance(x, ast.Name) and x.id not in seen and x.id not in self.defs.params:
+                for d in self.defs.defs.get(x.id, []):
+                    src = d[1] if d[0] == 'assign' else (d[2] if d[0] == 'unpack' else None)
+                    if isinstance(src, ast.AST) and self.mentions_param(src, seen + (x.id,)):
+                        return True
+        return False
 
     # --------------------------------------------- the tabled RFC 5987 decoding
     def _rfc5987_shape(self, t) -> Optional[str]:
@@ -1285,6 +1309,18 @@ class _ExactParam:
         rw = ('Content-Disposition: form-data; name="discount%%22"; filename="rate%%0Apct.txt" (sent literally by a non-browser encoder): '
               'part.%s differs from the encoded %s' % (f.name, self.key))
         for t in terms:
+            parent = self.inherited(t)
+            if parent is not None:
+                sub = _ExactParam(self.run, parent, self.cls, self.key, self.extended)
+                self.run.use(parent)
+                for q in sub.analyse():
+                    if q not in self.parsers:
+                        self.parsers.append(q)
+                self.records += sub.records
+                self.table_rx = getattr(sub, 'table_rx', getattr(self, 'table_rx', None))
+                n_raw += 1
+                self.records.append((True, 'BodyPart.%s hands out the value of the inherited accessor unchanged' % f.name, f, t, rw))
+                continue
             if self.is_raw(t):
                 n_raw += 1
                 self.records.append((True, 'BodyPart.%s is exactly the `%s` parameter of the parsed Content-Disposition header' % (f.name, self.key), f, t, rw))
@@ -1302,7 +1338,7 @@ class _ExactParam:
                 if any(isinstance(x, ast.Call) and x is not t and self._rfc5987_shape(x) is None for x in ast.walk(t)):
                     self.records.append((False, what5987 + ': something else is applied to the decoded value', f, t, rw5987))
                     continue
-            reads = [x for x in ast.walk(t) if x is not t and self.param_read(x, f, self.defs) is not None]
+            reads = self.mentions_param(t)
             own = self.param_read(t, f, self.defs)
             if own is not None:
                 self.records.append((False, 'BodyPart.%s reports the `%s` parameter (it reads %r%s)' % (
